@@ -31,6 +31,7 @@ from . import sites as S
 LEVEL = "proof"
 BAND_FIT = 5e-4    # |M1 - expected| <= BAND * (|int reg| + |loc(0+)|) for the fitted NNLO/N3LO parametrisations
 BAND_EXACT = 1e-12  # NLO exact expressions
+REL_FIT = 1e-3      # and |M1 - expected| <= REL_FIT * |expected| where the expected coefficient does not vanish
 ORDER_NAME = ["LO", "NLO", "NNLO", "N3LO"]
 
 
@@ -108,6 +109,9 @@ SUM_RULES = [
     ("GLS/Bjorken(F3)", "f3_nc", "NonSinglet", (1, 2, 3), spec_sr.bjorken),
     ("GLS/Bjorken(F3, CC odd)", "f3_cc", "NonSingletOdd", (1, 2, 3), spec_sr.bjorken),
     ("Bjorken(g1)", "g1_nc", "NonSinglet", (1, 2), spec_sr.bjorken),
+    # GLS = Bjorken-like non-singlet part + light-by-light (valence, fl02) part, first at a_s^3
+    ("GLS light-by-light(F3 valence)", "f3_nc", "Valence", (3,), spec_sr.gls_valence),
+    ("GLS light-by-light(F3 valence, CC)", "f3_cc", "Valence", (3,), spec_sr.gls_valence),
 ]
 
 
@@ -128,8 +132,13 @@ def moment_worker(sub, item):
         termsum = gross + abs(delta)
         gross = abs(m_reg) + abs(delta)  # scale of the cancellation between the regular and the local part
         dev = abs(m1 - exp)
-        ok = dev <= band * gross
-        detail = f"M1 = {mp.nstr(m1, 12)} expected {mp.nstr(exp, 12)} |dev| = {mp.nstr(dev, 4)} band = {band:g} * {mp.nstr(gross, 6)} (int reg = {mp.nstr(m_reg, 10)}, loc(0+) = {mp.nstr(delta, 10)})"
+        allowed = band * gross
+        if order > 1 and exp != 0:
+            # the published parametrisations claim 0.1 % accuracy: a non-vanishing series coefficient
+            # is reproduced at least that well, whatever the size of the cancellation behind it
+            allowed = min(allowed, REL_FIT * abs(exp))
+        ok = dev <= allowed
+        detail = f"M1 = {mp.nstr(m1, 12)} expected {mp.nstr(exp, 12)} |dev| = {mp.nstr(dev, 4)} allowed = {mp.nstr(allowed, 4)} [band = {band:g} * {mp.nstr(gross, 6)}" + (f", {REL_FIT:g} * |expected|" if order > 1 and exp != 0 else "") + f"] (int reg = {mp.nstr(m_reg, 10)}, loc(0+) = {mp.nstr(delta, 10)})"
         o = Ob(name, "lemma", PROVED if ok else REFUTED, "moments", 0, detail, {} if ok else {"first_moment": float(m1), "expected": float(exp), "deviation": float(dev), "gross_scale": float(gross)}, {})
         if not ok:
             # native replay: high-precision quadrature of the real kernel (floats)
@@ -140,7 +149,7 @@ def moment_worker(sub, item):
             a_reg = np.array(rn.args["reg"], dtype=float)
             val = mp.quad(lambda t: rn.reg(float(t), a_reg), [mp.mpf(10) ** -12, 0.5, 1 - mp.mpf(10) ** -12]) if rn.reg is not None else 0
             d0 = rn.loc(1e-14, np.array(rn.args["loc"], dtype=float)) if rn.loc is not None else 0
-            o.replay = {"observed_native": float(val + d0), "expected_spec": float(exp), "confirmed": bool(abs(val + d0 - exp) > band * gross), "note": "mpmath quadrature of the real reg kernel + loc(0+)"}
+            o.replay = {"observed_native": float(val + d0), "expected_spec": float(exp), "confirmed": bool(abs(val + d0 - exp) > allowed), "note": "mpmath quadrature of the real reg kernel + loc(0+)"}
         sub.add(o)
     except NotIntegrable as e:
         sub.add(Ob(name, "lemma", UNDECIDED, "moments", 0, f"not reducible to the integral table: {e}"))
@@ -179,9 +188,9 @@ def run(rep, tier, seed, only=None):
     rep.assume(
         "spec/nlo.py, spec/sumrules.py typed from the literature (Bardeen et al. / Furmanski-Petronzio; Gorishny-Larin, Larin-Vermaseren) in the a_s = alpha_s/4pi normalisation",
         "the table of definite integrals J(a,b,c,k) is computed by mpmath at 40 digits (trusted numerics, spot-checked against closed forms in zeta values); the reduction of the kernel's normal form to the table is exact",
-        f"acceptance band: |M1 - expected| <= {BAND_EXACT:g} (NLO, exact) / {BAND_FIT:g} (fitted NNLO/N3LO parametrisations) times (|int_0^1 reg| + |loc(0+)|), the scale of the cancellation that produces the first moment (measured on this tree: 4e-7 .. 1.3e-4 of that scale, worst case NNLO F3/g1 at nf=6)",
+        f"acceptance band: |M1 - expected| <= {BAND_EXACT:g} (NLO, exact) / {BAND_FIT:g} (fitted NNLO/N3LO parametrisations) times (|int_0^1 reg| + |loc(0+)|), the scale of the cancellation that produces the first moment, and additionally 1e-3 * |expected| where the series coefficient does not vanish (the 0.1 % accuracy the parametrisations claim; clean tree: <= 2.2e-4 of |expected|) (measured on this tree: 4e-7 .. 1.3e-4 of that scale, worst case NNLO F3/g1 at nf=6)",
         "the first moment of a plus distribution vanishes; loc(0+) is the delta coefficient (C03)",
-        "only the constraints named by the property are claimed (first moments; no higher Mellin N); the fl02 valence piece of GLS is not claimed",
+        "only the constraints named by the property are claimed (first moments; no higher Mellin N); the GLS coefficient at a_s^3 is checked as its two pieces: Bjorken-like non-singlet and light-by-light valence (Larin-Vermaseren)",
     )
     for nm, f in (("closed", sec_closed_forms), ("sum", lambda r: sec_sum_rules(r, tier))):
         if only and only not in nm:
